@@ -1,5 +1,5 @@
 """C20 — operator, wrapper and trait facades agree with the inherent methods:
-case generator, observation hook (prepare), forwarding-table check and metadata."""
+case generator, forwarding-table check and metadata."""
 import json
 import os
 import re
@@ -20,13 +20,13 @@ RULE = ("every facade entry point (6 impl_bin_op! shapes x Add/Sub/Mul/Div/Rem, 
         "BITS and 64, out-of-range byte strings; each case runs the facade and the inherent method on the same "
         "operands (both printed); non-trivial = BITS>0 and some operand not 0/1; distinct = distinct case lines")
 TRUSTED = ["Coq 8.16.1 kernel + vm_compute",
-           "hand-written Gallina models coq/Model/{Base,Word,Add,Shift,Bits,Conv,Bytes,Limbs,Mul,Div*,UDiv,Facade}.v",
+           "hand-written Gallina models coq/Model/{Base,Word,Add,Shift,Bits,Conv,Bytes,Limbs,Mul,Div*,UDiv,Pow,Gcd*,"
+           "BaseConv,Str,Facade}.v",
            "correspondence harness harness/src/bin/c20.rs (prints facade and inherent result of every case) + "
-           "vlib (python) translation of tokens and of the observed inherent results",
+           "vlib (python) translation of tokens",
            "rustc/LLVM u64 semantics; subtle 2.6.1 u64::ct_gt = '>' and Choice = bool"]
-ASSUMPTIONS = ["inherent methods treated as opaque (pow, gcd, lcm, from_str_radix, and the pure forwarders to mul, div, "
-               "rem, inv_ring) enter the model as the observed result of the same call on the same operands; a "
-               "forwarder returns it unchanged (MulAdd and is_multiple_of use the real Mul.v / UDiv.v models)",
+ASSUMPTIONS = ["every inherent method is the model function of its own topic (Add, Shift, Bits, Conv, Bytes, Mul, UDiv, "
+               "Pow, Gcd, Str); nothing is observed: run predicts facade and inherent result from the operands alone",
                "64-bit little-endian target (usize = u64; to_be/from_be swap, to_le/from_le are the identity)",
                "BITS < 2^32 for the PrimInt counting methods (as u32 is lossless)"]
 EXPLANATION = ("Theorem C20_holds: forall wf call, spec call (run call) = true, where run prints the "
@@ -360,7 +360,7 @@ def tokT(s):
 
 
 # ------------------------------------------------------------------ entry points
-OBS2 = ["nt_checked_mul", "nt_checked_div", "nt_checked_rem", "nt_checked_div_euclid",
+BIN2 = ["nt_checked_mul", "nt_checked_div", "nt_checked_rem", "nt_checked_div_euclid",
         "nt_checked_rem_euclid", "nt_div_euclid", "nt_rem_euclid", "nt_saturating_mul", "nt_wrapping_mul",
         "nt_overflowing_mul", "nt_pow", "ni_div_floor", "ni_mod_floor", "ni_gcd", "ni_lcm", "ni_div_ceil",
         "ni_div_rem", "ni_div_mod_floor", "ni_extended_gcd"]
@@ -368,58 +368,6 @@ DIVLIKE = {"nt_checked_div", "nt_checked_rem", "nt_checked_div_euclid", "nt_chec
            "nt_rem_euclid", "ni_div_floor", "ni_mod_floor", "ni_div_ceil", "ni_div_rem", "ni_div_mod_floor",
            "ni_is_multiple_of", "op_div", "op_rem"}
 MULLIKE = {"nt_checked_mul", "nt_saturating_mul", "nt_wrapping_mul", "nt_overflowing_mul", "ni_lcm", "op_mul"}
-# number of argument tokens before the observed result, for every fn that carries one
-OBS_ARITY = {"op_mul": 3, "op_div": 3, "op_rem": 3, "it_product": 2, "bw_from_str_radix": 2, "bw_from_str": 1,
-             "nt_inv": 1, "nt_from_str_radix": 2, "nt_pow_u32": 2}
-OBS_ARITY.update({f: 2 for f in OBS2})
-AUX = {}      # observations taken from another entry point's inherent side (none needed now)
-
-
-def side_to_obs(toks):
-    """printed inherent side -> the LL token the model reads (RunC20.side_of_obs)"""
-    if toks == ["E:1"]:
-        return "LL:0;"
-    if toks == ["N"]:
-        return "LL:2;"
-    if toks and toks[0].startswith("E:"):
-        args = [t[2:] for t in toks[1:]]
-        return "LL:" + ",".join(["7", toks[0][2:]] + args) + ";"
-    ls = [t[2:] for t in toks if t.startswith("L:")]
-    if toks[0] == "S" and len(toks) == 2:
-        return "LL:3;%s;" % ls[0]
-    if len(toks) == 1 and len(ls) == 1:
-        return "LL:1;%s;" % ls[0]
-    if len(toks) == 2 and len(ls) == 1 and toks[1].startswith("B:"):
-        return "LL:4;%s;%s;" % (ls[0], toks[1][2:])
-    if len(toks) == 2 and len(ls) == 2:
-        return "LL:5;%s;%s;" % (ls[0], ls[1])
-    if len(toks) == 3 and len(ls) == 3:
-        return "LL:6;%s;%s;%s;" % (ls[0], ls[1], ls[2])
-    raise ValueError("cannot encode observed side %r" % (toks,))
-
-
-def prepare(lines):
-    """append the observed inherent result (release build) to the cases whose inherent method
-    has no model; idempotent (replayed cases already carry it)"""
-    todo, queries = [], []
-    for i, ln in enumerate(lines):
-        p = ln.split()
-        if p[0] in OBS_ARITY and len(p) - 2 == OBS_ARITY[p[0]]:
-            todo.append(i)
-            queries.append(AUX[p[0]](p) if p[0] in AUX else ln + " LL:0;")
-    if not todo:
-        return lines
-    res = C.run_harness(BIN, "release", queries)
-    out = list(lines)
-    for i, r in zip(todo, res):
-        if r is None or " E:0 " not in (" " + r + " "):
-            out[i] = lines[i] + " LL:0;"          # harness error: reported by the run itself
-            continue
-        inh = r.split(" E:0 ", 1)[1].split() if not r.endswith(" E:0") else []
-        out[i] = lines[i] + " " + side_to_obs(inh)
-    return out
-
-
 def cases_for_width(rng, bits, reps, out):
     m = 1 << bits
     add = out.append
@@ -514,7 +462,7 @@ def cases_for_width(rng, bits, reps, out):
             for fn in ("nt_saturating_add", "nt_saturating_sub"):
                 a, b = pair_add(rng, bits)
                 add("%s %d Z:%x %s %s" % (fn, bits, k, u(a), u(b)))
-        for fn in OBS2:
+        for fn in BIN2:
             if fn in DIVLIKE:
                 a, b = pair_div(rng, bits, zero=rng.random() < 0.2)
             elif fn in MULLIKE:
@@ -565,6 +513,23 @@ def cases_for_width(rng, bits, reps, out):
                 # same high limbs, different low limb and vice versa: the scan must go on / must stop
                 b = a ^ (1 << rng.randrange(bits))
             add("%s %d %s %s" % (fn, bits, u(a), u(b)))
+        if bits > 64:
+            # the scan must stop at the first differing limb from the top: high limbs say one thing,
+            # low limbs the opposite (a wrong `equal` update or a little-endian scan flips the answer)
+            n = C.nlimbs(bits)
+            la = [C.rand_limb(rng) for _ in range(n)]
+            la[-1] &= C.mask(bits)
+            lb = list(la)
+            hi = rng.randrange(1, n)
+            lo = rng.randrange(0, hi)
+            la[hi], lb[hi] = sorted([la[hi] & C.mask(bits) if hi == n - 1 else la[hi],
+                                     (la[hi] ^ (1 << rng.randrange(C.mask(bits).bit_length() if hi == n - 1 else 64)))
+                                     & (C.mask(bits) if hi == n - 1 else C.B64 - 1)])
+            x, y = sorted([la[lo], la[lo] ^ (1 << rng.randrange(64))])
+            la[lo], lb[lo] = y, x                      # a < b by limb hi, a > b by limb lo
+            for fn in ("ct_gt", "ct_lt", "ct_eq"):
+                p, q = (la, lb) if rng.random() < 0.5 else (lb, la)
+                add("%s %d %s %s" % (fn, bits, C.tokL(p), C.tokL(q)))
         add("ct_negate %d %s B:%d" % (bits, u(val(rng, bits)), rng.randrange(2)))
 
 
